@@ -26,7 +26,10 @@ def check_tie_pass(ck, sources, label, max_programs=None, violation_limit=3):
             verdict[i] = "skip"
     ml = run_jobs(MODELRUN, mjobs, f"{label}.tcheck.ml", timeout_per_job=5.0)
     cnt, bad = {}, 0
+    per_program = {}
+    ck.checker_tie_verdicts = per_program
     for i, (name, s) in enumerate(srcs):
+        per_program[name] = None
         if verdict[i] == "skip":
             cnt["real-checker-crash-or-export-failed"] = cnt.get("real-checker-crash-or-export-failed", 0) + 1
             continue
@@ -55,6 +58,7 @@ def check_tie_pass(ck, sources, label, max_programs=None, violation_limit=3):
                               "correspondence": "Check/Infer.v check_program (on Front/ParseExpr.v parse_program_text) vs garble_lang::check"},
                              found_input=False)
         cnt[kind] = cnt.get(kind, 0) + 1
+        per_program[name] = kind
     compared = cnt.get("accepted: same typed program", 0) + cnt.get("rejected by both", 0)
     ck.obligation("correspondence Check/Infer.v = src/check.rs: the model of the type checker accepts exactly the programs the real "
                   "checker accepts and returns the same typed program (types of every node, resolved literal widths, variant "
